@@ -107,7 +107,7 @@ type obsRec struct {
 	hang bool
 }
 
-func lineOf(i int) tag.Line { return tag.Line(fmt.Sprintf("src=%c", 'A'+i)) }
+func lineOf(i int) tag.Line { return tag.Line(fmt.Sprintf("src=s%02d", i)) }
 
 func posString(p PosSpec, nsrc int) string {
 	switch p.Kind {
@@ -376,6 +376,8 @@ func genTs(r *Rng, kind, n int, base int64) []int64 {
 		case 1: // non-decreasing in a narrow band: many ties within and across sources
 			cur += int64(r.Intn(2))
 			ts[i] = cur
+		case 4: // one instant: every comparison of the merge is a tie
+			ts[i] = 7
 		case 3: // the ends of the int64 axis and the neighbourhood of the former model.MinTimestamp (time.Time{}.UnixNano()), time ordered
 			ts[i] = extremeTs[r.Intn(len(extremeTs))]
 		default: // unsorted
@@ -392,17 +394,33 @@ func genTs(r *Rng, kind, n int, base int64) []int64 {
 var extremeTs = []int64{-9223372036854775808, -9223372036854775807, -6795364578871345153, -6795364578871345152, -6795364578871345151, -1, 0, 1, 9223372036854775806, 9223372036854775807}
 
 func genDirect(r *Rng) *Replay {
+	return genDirectN(r, r.PickInt(1, 2, 2, 3, 3, 3, 4, 5, 5, 6, 7, 8, 9, 1, 2, 3, 4, 5, 6, 7, 8, 9, 9, 15, 16, 17, r.PickInt(31, 32, 33, 49, 50)), r.PickInt(0, 1, 1, 1, 2, 3, 4), "")
+}
+
+// genDirectN: n sources (around the powers of two the pairwise reduction of newCursor has its odd carry-overs; 50 is the
+// most one cursor merges), timestamps of the kind given (4: every event of every source has the same timestamp: every
+// comparison of the merge is a tie), script "" = drawn
+func genDirectN(r *Rng, n, kind int, script string) *Replay {
 	rp := &Replay{Kind: "direct"}
-	n := r.PickInt(1, 2, 2, 3, 3, 3, 4, 5, 5, 6, 7, 8, 9)
-	kind := r.PickInt(0, 1, 1, 1, 2, 3)
-	withFlt := r.Chance(1, 4) || (kind == 3 && r.Chance(1, 2))
+	withFlt := (r.Chance(1, 4) || (kind == 3 && r.Chance(1, 2))) && script != "turn"
+	fltMode := r.PickInt(0, 0, 0, 0, 1, 2) // the filter accepts some / all / none of the events
 	total := 0
+	long := -1
+	if r.Chance(1, 8) {
+		long = r.Intn(n) // one long source among short and empty ones
+	}
 	for i := 0; i < n; i++ {
 		ln := r.PickInt(0, 0, 1, 1, 2, 3, 4, 6)
+		if n > 12 {
+			ln = r.PickInt(0, 0, 1, 1, 1, 2, 3)
+		}
+		if i == long {
+			ln = r.Range(15, 30)
+		}
 		ts := genTs(r, kind, ln, int64(r.Intn(3)))
 		s := Src{Tag: i}
 		for k := 0; k < ln; k++ {
-			s.Recs = append(s.Recs, Ev{Ts: ts[k], Id: i*100 + k + 1, A: withFlt && r.Chance(2, 3)})
+			s.Recs = append(s.Recs, Ev{Ts: ts[k], Id: i*100 + k + 1, A: withFlt && (fltMode == 1 || (fltMode == 0 && r.Chance(2, 3)))})
 		}
 		total += ln
 		rp.Srcs = append(rp.Srcs, s)
@@ -419,6 +437,16 @@ func genDirect(r *Rng) *Replay {
 		rp.Flt = f
 	}
 	x := r.Intn(100)
+	switch script {
+	case "fw":
+		x = 0
+	case "bk":
+		x = 30
+	case "turn":
+		x = 45
+	case "random":
+		x = 99
+	}
 	switch {
 	case x < 30:
 		rp.Drain = "fw"
@@ -468,7 +496,18 @@ func genDirect(r *Rng) *Replay {
 		if rp.Pos.Kind == "at" {
 			for i, s := range rp.Srcs {
 				if r.Chance(3, 4) {
-					rp.Pos.At = append(rp.Pos.At, PosAt{Tag: i, CId: uint64(i + 1), Idx: uint32(r.Intn(len(s.Recs) + 2))})
+					at := PosAt{Tag: i, CId: uint64(i + 1), Idx: uint32(r.Intn(len(s.Recs) + 2))}
+					switch r.Intn(12) { // a chunk id the source does not have (below / above its own), the largest index
+					case 0:
+						at.CId = 0
+					case 1:
+						at.CId = uint64(i + 2)
+					case 2:
+						at.CId = 0xFFFFFFFFFFFFFFFF
+					case 3:
+						at.Idx = 0xFFFFFFFF
+					}
+					rp.Pos.At = append(rp.Pos.At, at)
 				}
 			}
 			if len(rp.Pos.At) == 0 {
@@ -804,10 +843,11 @@ func genStore(r *Rng, P int, sizes []int, kind int) ([]PartSpec, [][]int) {
 			ln = r.PickInt(1, 1, 2, 3)
 		}
 		ts := genTs(r, kind, ln, int64(1000+r.Intn(3)))
+		amode := r.PickInt(0, 0, 0, 0, 0, 1, 2) // the WHERE filter accepts some / all / none of the partition's events
 		var chunks [][]Ev
 		var cur []Ev
 		for k := 0; k < ln; k++ {
-			cur = append(cur, Ev{Ts: ts[k], Id: i*100 + k + 1, A: r.Chance(2, 3)})
+			cur = append(cur, Ev{Ts: ts[k], Id: i*100 + k + 1, A: amode == 1 || (amode == 0 && r.Chance(2, 3))})
 			if r.Chance(1, 3) && k < ln-1 {
 				chunks = append(chunks, cur)
 				cur = nil
@@ -865,10 +905,21 @@ func run(c *Ctx) error {
 	}
 
 	// ---- direct stream
-	nd := c.N(700)
+	nd := c.N(600)
 	reps := make([]*Replay, nd)
 	for i := range reps {
 		reps[i] = genDirect(c.Rng)
+	}
+	// always: the numbers of sources around the odd carry-overs of the pairwise reduction and at the limit, with ties
+	// everywhere / unique timestamps, every script kind
+	fix := []struct {
+		n, kind int
+		script  string
+	}{{17, 4, "fw"}, {17, 4, "bk"}, {33, 1, "turn"}, {50, 0, "fw"}, {50, 4, "turn"}, {49, 1, "bk"}, {16, 4, "random"}, {31, 2, "fw"}, {2, 4, "turn"}, {3, 4, "turn"}, {5, 4, "bk"}, {9, 4, "fw"}, {32, 3, "fw"}, {15, 0, "random"}}
+	for i, f := range fix {
+		if i < len(reps) {
+			reps[i] = genDirectN(c.Rng.Fork(), f.n, f.kind, f.script)
+		}
 	}
 	cases := make([]Case, nd)
 	errs := make([]error, nd)
@@ -902,7 +953,7 @@ func run(c *Ctx) error {
 		for len(sizes) < 10 {
 			sizes = append(sizes, c.Rng.Range(2, P))
 		}
-		jobs = append(jobs, job{P, sizes, c.Rng.PickInt(0, 1, 1, 2, 3)})
+		jobs = append(jobs, job{P, sizes, c.Rng.PickInt(0, 1, 1, 2, 3, 4)})
 	}
 	for k := 0; k < c.N(2); k++ {
 		jobs = append(jobs, job{60, []int{48, 49, 50, 51, 52, 60, c.Rng.Range(10, 47), c.Rng.Range(4, 9), c.Rng.Range(53, 59), 49, 50}, c.Rng.PickInt(0, 1)})
